@@ -72,6 +72,10 @@ def case_strategy(draw, tier):
         case["top_base"] = draw(st.lists(st.integers(0, 400), min_size=1, max_size=6))
         case["top_mix"] = [draw(st.integers(0, 5)), draw(st.integers(0, 5))]
         case["gaps"] = draw(_fixed(st.sampled_from([0, 0, 0, 1, 8, 40]), max(nz - 1, 0)))
+        # one column pinched out completely (DZ = 0 in every layer): cells of zero volume are legitimate input, the others
+        # must not notice.  Half of the time it is the corner column (1,1), whose pillar decides the z orientation
+        if top != "DEPTHZ" and nx * ny > 1 and draw(st.integers(0, 5)) == 0:
+            case["zerocol"] = [0, 0] if draw(st.booleans()) else [draw(st.integers(0, nx - 1)), draw(st.integers(0, ny - 1))]
     else:
         if draw(st.sampled_from([True, False])):
             nz_int = st.integers(1, 12).flatmap(lambda v: st.sampled_from([v, -v]))
@@ -194,7 +198,7 @@ class Ref:
                 max(abs(y) for y in self.ys) + abs(self.sy) * dzs, zmax)
         ext = min(min(self.xs[i + 1] - self.xs[i] for i in range(self.nx)),
                   min(self.ys[j + 1] - self.ys[j] for j in range(self.ny)),
-                  min(b - t for c in self.ztop for t, b in zip(self.ztop[c], self.zbot[c])))
+                  min([b - t for c in self.ztop for t, b in zip(self.ztop[c], self.zbot[c]) if b - t > 0] or [1]))
         return L, ext
 
     def vals(self, f):
@@ -313,6 +317,10 @@ def bc_arrays(case):
         for j in range(ny):
             for i in range(nx):
                 dz[(i, j, k)] = s * base[(a * i + b * j + c * k) % len(base)]
+    zc = case.get("zerocol")
+    if zc and case["zform"] != "V":
+        for k in range(nz):
+            dz[(zc[0], zc[1], k)] = F(0)
     tb, (ta, tc) = case["top_base"], case["top_mix"]
     top0 = s * case["top0"]
 
@@ -517,7 +525,7 @@ class C13(Check):
             "OpenMP threads.  Non-trivial: non-uniform spacing and >= 1 inactive cell and (corner-point) a fault or "
             "a shear; distinct = distinct generated case.")
     ASSUMPTIONS = [
-        "cells have strictly positive thickness at every corner and layers do not overlap (fixupZCORN has nothing to do)",
+        "cells have strictly positive thickness at every corner - except one whole column of a block-centred grid, which may be pinched out completely (DZ = 0) - and layers do not overlap (fixupZCORN has nothing to repair)",
         "DX depends on i only, DY on j only (conforming block-centred grid); DZ may vary per cell",
         "corner-point cells have planar faces: all pillars are parallel and interfaces are affine per cell",
         "exact volume = footprint area x mean corner thickness; tolerances are condition-number based "
@@ -692,6 +700,12 @@ class C13(Check):
         # products of coordinate differences
         vol_rel = 2048 * EPS * cond
         tol = {"pos": pos_tol, "vol": vol_rel, "f": f, "f_file": f_deck}
+        # absolute allowance for volumes (matters only for cells pinched out to zero thickness, whose top and bottom depths
+        # are equal up to the position tolerance): 8 x position tolerance x largest horizontal cell area
+        xs_, ys_ = [float(x) * f for x in ref.xs], [float(y) * f for y in ref.ys]
+        amax = max(xs_[i + 1] - xs_[i] for i in range(len(xs_) - 1)) * max(ys_[j + 1] - ys_[j] for j in range(len(ys_) - 1))
+        vabs = 8.0 * pos_tol * amax
+        tol["vabs"] = vabs
 
         deck_cp = deck_text(case, cp_body(ref), dims)
         if case["kind"] == "bc":
@@ -759,7 +773,7 @@ class C13(Check):
         for c in range(n):
             want = fl(g["vol_direct"][c])
             got = [fl(gr["vol_cached"][c])] + ([fl(gr["active_volume"][act_r[c]])] if act_r[c] >= 0 else [])
-            require(all(abs(v - want) <= vol_rel * want for v in got),
+            require(all(abs(v - want) <= vol_rel * want + vabs for v in got),
                     "indices (activity via %s): volumes after changing ACTNUM differ from the cell volumes" % route,
                     {"cell": c, "want": want, "got": got})
         require(len(gr["active_volume"]) == gr["nactive"], "indices: activeVolume() size after changing ACTNUM",
@@ -791,10 +805,10 @@ class C13(Check):
                 c1, c2 = children(i, j, k)
                 s = sv[sref.gidx(*c1)] + sv[sref.gidx(*c2)]
                 p = parent[ref.gidx(i, j, k)]
-                require(abs(s - p) <= (srel + vol_rel) * abs(p),
+                require(abs(s - p) <= (srel + vol_rel) * abs(p) + 2 * vabs,
                         "additivity: children volumes do not sum to the parent (split in %s)" % axis,
                         {"cell": [i, j, k], "parent": p, "children": [sv[sref.gidx(*c1)], sv[sref.gidx(*c2)]],
-                         "rel": abs(s - p) / abs(p), "tol": srel + vol_rel})
+                         "rel": abs(s - p) / (abs(p) or 1.0), "tol": srel + vol_rel})
             ctx.label("split:" + axis)
 
         # (vi) save -> load
@@ -877,6 +891,13 @@ class C13(Check):
             want = V["vol"][c]
             for key in ("vol_direct", "vol_ijk", "vol_cached"):
                 got = fl(g[key][c])
+                if want == 0:
+                    # a cell pinched out completely (zero thickness at every corner) has no volume
+                    # (top and bottom depths are sums of the layers above: equal up to the position tolerance)
+                    zero_tol = tol.get("vabs", 0.0) + 8.0 * ptol * V["dims"][c][0] * V["dims"][c][1]
+                    require(abs(got) <= zero_tol, R + "volume of a cell of zero thickness is not zero",
+                            {"cell": [i, j, k], key: got, "tol": zero_tol})
+                    continue
                 require(got > 0 and math.isfinite(got), R + "cell volume is not positive", {"cell": [i, j, k], key: got})
                 err = abs(got - want) / want
                 require(err <= vrel, R + "%s differs from area x mean thickness" % key,
@@ -884,7 +905,7 @@ class C13(Check):
                 worst = max(worst, err / vrel)
             if act[c] >= 0 and act[c] < len(av):
                 got = av[act[c]]
-                require(abs(got - want) <= vrel * want, R + "activeVolume()[activeIndex] differs from the cell volume",
+                require(abs(got - want) <= vrel * want + tol.get("vabs", 0.0), R + "activeVolume()[activeIndex] differs from the cell volume",
                         {"cell": [i, j, k], "got": got, "want": want})
             # corner points
             wc = V["corners"][c]
